@@ -38,6 +38,9 @@ Mirror(ev) ==
   /\ Require(ev.eq = ev.meq, "a == b but not b == a", ev)
   /\ Require(ev.lt = ev.mgt, "a < b but not b > a", ev)
   /\ Require(ev.gt = ev.mlt, "a > b but not b < a", ev)
+  /\ Require(ev.ne = ev.mne, "a != b but not b != a", ev)
+  /\ Require(ev.le = ev.mge, "a <= b but not b >= a", ev)
+  /\ Require(ev.ge = ev.mle, "a >= b but not b <= a", ev)
 
 Init == l = 1 /\ T = <<>>
 Next ==
